@@ -12,7 +12,7 @@ def prep(d):
     return t if r.returncode == 0 else None
 def one(job):
     d, t, p = job
-    env = dict(os.environ, VERIF_EVIDENCE_DIR=f'{t}/ev-{p}', VERIF_QUIET='1')
+    env = dict(os.environ, VERIF_EVIDENCE_DIR=f'{t}/ev-{p}', VERIF_QUIET='1', VERIF_JOBS='1')
     r = subprocess.run(['/venv/bin/python', '/verif/sa/check.py', p, '--repo', t], capture_output=True, text=True, env=env)
     out = [l for l in (r.stdout + r.stderr).splitlines() if 'condarc' not in l]
     det = any(l.startswith('VIOLATION') for l in out)
